@@ -679,8 +679,8 @@ class Evaluator:
 
 
 def _load(t):
-    import copy
-    t2 = copy.deepcopy(t)
+    from .match import clone
+    t2 = clone(t)
     for n in ast.walk(t2):
         if hasattr(n, "ctx"):
             n.ctx = ast.Load()
